@@ -111,3 +111,10 @@ package ice
 //@   site call addCandidate#1 assert hands-over-the-pending-socket: arg3.payload == currentConn.payload && outstanding == 1 && currentConn.gClosed == 0
 //@   site call addCandidate#1 ghost after outstanding := outstanding - ite(result == nil, 1, 0)
 //@   ensures every-socket-is-closed-once-or-owned-by-a-candidate: outstanding == 0
+
+// Closing a candidate that was never started touches nothing (it owns no socket);
+// this is the fact the interface contract of Candidate.close assumes.
+//@ func (*candidateBase).close
+//@   props C09
+//@   opt nosafety
+//@   ensures a-never-started-candidate-closes-nothing: old(c.closeCh) == nil ==> result == nil && unchangedExcept()
